@@ -334,10 +334,14 @@ pub fn run_seq(trace: &Trace, skip: &BTreeSet<usize>, opts: &SeqOpts) -> SeqOutc
                     relaxed = true;
                     rep.fault("callback_panic", 1);
                     pol.enabled = false;
-                } else if relaxed && msg.contains("lock poisoned") {
-                    // attributed to the caller's own panic
+                } else if relaxed {
+                    // After one of its own callbacks has panicked inside a call, the caller
+                    // holds a cache in an unspecified (but memory-safe) state -- a poisoned
+                    // lock on `sync`, half-updated bookkeeping on `unsync`. Later panics
+                    // are attributed to the caller; only memory safety (crash, sanitizer)
+                    // and exactly-once drop are still judged for this run.
                     dead_run = true;
-                    rep.flag("poisoned_after_injected_panic", 1);
+                    rep.flag("panic_after_injected_panic", 1);
                 } else {
                     rep.viol(
                         "C08.internal-panic",
@@ -364,8 +368,14 @@ pub fn run_seq(trace: &Trace, skip: &BTreeSet<usize>, opts: &SeqOpts) -> SeqOutc
 
         // --- reference model ----------------------------------------------------------
         if opts.oracles && !relaxed && result != StepResult::Panicked {
-            if !unsync && st.hk_synced > 0 {
+            // A housekeeper pass inside a `get` runs *after* the lookup has been decided
+            // (and before its own read record is queued); inside a write it runs after the
+            // map update. Lookups are therefore judged before the pass is applied.
+            let pass_inside = !unsync && st.hk_synced > 0;
+            if pass_inside && !matches!(op, Op::Get { .. }) {
                 model.maintenance_pass();
+            }
+            if pass_inside {
                 rep.flag("housekeeper_passes", st.hk_synced as u64);
             }
             let queued_before = !unsync && (last_snap.read_queue_len + last_snap.write_queue_len) > 0;
@@ -383,7 +393,15 @@ pub fn run_seq(trace: &Trace, skip: &BTreeSet<usize>, opts: &SeqOpts) -> SeqOutc
                     if queued_before {
                         queued_nontrivial = true;
                     }
+                    let before = model.pending_reads.len();
                     model.judge_lookup(i, "get", *k, g.is_some(), *g, !st.read_dropped, &mut out);
+                    if pass_inside {
+                        let own = if model.pending_reads.len() > before { model.pending_reads.pop() } else { None };
+                        model.maintenance_pass();
+                        if let Some(r) = own {
+                            model.pending_reads.push(r);
+                        }
+                    }
                 }
                 (Op::Contains { k }, StepResult::Has(b)) => {
                     if queued_before {
@@ -425,6 +443,30 @@ pub fn run_seq(trace: &Trace, skip: &BTreeSet<usize>, opts: &SeqOpts) -> SeqOutc
         } else {
             *op == Op::Sync
         };
+
+        // derived cause probe (known finding F12): a dead entry is still held *behind* a live
+        // one in a deque whose purge scan stops at the first live node
+        if opts.oracles && !relaxed && quiescent {
+            let is_dead = |k: u64, v: u64| match model.entries.get(&(k as u16)) {
+                Some(me) => me.vid as u64 != v || model.dead_at(me, model.now),
+                None => true,
+            };
+            let val_of: BTreeMap<u64, u64> = snap.entries.iter().map(|e| (e.key, e.value)).collect();
+            for deque in [&snap.probation, &snap.write_order] {
+                let mut live_seen = false;
+                for n in deque.iter() {
+                    if let Some(v) = val_of.get(&n.key) {
+                        if is_dead(n.key, *v) {
+                            if live_seen {
+                                *shared.probes.lock().unwrap().entry("cause.dead_behind_live").or_insert(0) += 1;
+                            }
+                        } else {
+                            live_seen = true;
+                        }
+                    }
+                }
+            }
+        }
 
         // C08 structural walker
         if !relaxed {
@@ -810,7 +852,7 @@ fn check_fits(
     let still_current = model
         .entries
         .get(&k)
-        .map(|e| e.vid == vid && !model.dead_at(e, model.now))
+        .map(|e| e.vid == vid && model.surely_alive_at(e, model.now))
         .unwrap_or(false);
     if still_current && !snap.entries.iter().any(|e| e.key as u16 == k && e.value as u32 == vid) {
         rep.viol(
@@ -827,7 +869,7 @@ fn check_fits(
         let alive = model
             .entries
             .get(rk)
-            .map(|e| e.vid == *rv && !model.dead_at(e, model.now))
+            .map(|e| e.vid == *rv && model.surely_alive_at(e, model.now))
             .unwrap_or(false);
         if alive && !snap.entries.iter().any(|e| e.key as u16 == *rk && e.value as u32 == *rv) {
             rep.viol(
